@@ -11,9 +11,13 @@ END-TO-END model of one job: the parametric engine of `Model/Engine.lean` INSTAN
 timer), whose component dispatchers are `Simaple.Dispatch.dispatch` (Model/Dispatch.lean) around the class
 reducers of the L2 component models (the `reducer` functions of `Model/DrvComponent*.lean`, called as they are).
 
-What is instantiated (NOT restated): `Simaple.Dispatch.findMapping / dispatch / tagEvents / resolve`,
-`Simaple.Router.runComps / timer / route / clockView`, `Simaple.Engine.play / execOp / exec / reload / rollback`,
-and every class reducer.  What this file adds:
+What is instantiated (NOT restated): `Simaple.Dispatch.findMapping / dispatch / tagEvents / resolve` (the whole
+dispatcher incl. bound names, default initialisation, write back, ACCEPT tagging), `Simaple.Router.timer / clockView`,
+`Simaple.Engine.play / execOp / exec / reload / rollback`, and every class reducer.
+What is RESTATED, with a proof of equality: `runCompC / runCompsC / routeC` are `Simaple.Router.runComp / runComps /
+route` with a hash table after every dispatch (`routeC_eq_route`, Proofs/JobRunner.lean); they exist only because the
+compiled code of the function store is exponentially slow along a chain of dispatches (see the section below).
+What this file adds:
   * entities are JSON values (`ε := Lean.Json`, the encodings of the component drivers); the store is the function
     store `Simaple.Dispatch.Store Json`;
   * the job description (`CompDesc`, read off the real built engine by harness/jobmodel.py);
@@ -23,8 +27,11 @@ and every class reducer.  What this file adds:
     (`encPending / decPending`);
   * a TOTAL router `routeT` (a Python exception = `route … = none` or a raising reducer becomes a distinguished
     `#error` event; on error-free calls it is `route`, see Proofs/JobRunner.lean);
-  * `runCompC / runCompsC / routeC / jobPlayC`: the router with hash tables in between, EQUAL to
-    `Simaple.Router.route` (Proofs/JobRunner.lean) — used for speed only.
+  * a guard `jobPlayG` around `play` for stores whose pending callbacks are not relays (unreachable; makes the
+    clock law of the play function total) and `jobPlayC` = `jobPlayG` + a hash table over all addresses
+    (`jobPlayC_eq`);
+  * `fadd`: IEEE-754 double addition on rationals (one reducer of the shipped jobs accumulates a float).
+JSON texts are built and read with `Lean.Json.compress / parse` (opaque to the kernel; no theorem depends on them).
 No Mathlib.
 -/
 namespace Simaple.JobRunner
